@@ -1,8 +1,275 @@
+(* Property C09 — accepted paths belong to their ensemble; rejections change nothing.
+
+   Model: model/MovesM.v (shoot, wire_fencing, extender, subt_acceptance, select_shoot, run_md
+   glue) on top of PathM / EngineM / WeightM.  The engine is an input (one list of order values
+   per propagate call), the random numbers are an input (a list of rationals), [fx] selects the
+   stop rule of EngineBase.add_to_path: fx = true is the rule /repo has now
+   ("if path.length == path.maxlen and not success"), fx = false the rule before that repair
+   (lead L11).  Every theorem below is unbounded: it holds for all old paths, interfaces,
+   limits, draws and engine streams; those stated for an arbitrary [fx] hold for both rules.
+   This file only restates results proved in proofs/MovesP.v, each followed by
+   Print Assumptions.  "Outside" follows the code's own operators: the stop rule uses
+   o < left / o > right, the classification of end points uses <= / >=. *)
 From Coq Require Import ZArith QArith List Bool Lia.
 Import ListNotations.
-From Inf Require Import model.PathM model.EngineM model.WeightM model.MovesM proofs.MovesP.
+From Inf Require Import model.PathM model.EngineM model.WeightM model.MovesM proofs.PathP proofs.MovesP.
 Open Scope Z_scope.
 
-Theorem C09_current_rule_is_EngineM : forall p f l r, add_to_path_g false p f l r = add_to_path p f l r.
+(* ------------------------------------------------------------------ accept <-> "ACC" *)
+
+Theorem C09_accept_iff_ACC_shoot : forall fx i0 i1 i2 eL eR maxlength allowmax pL pR old old_ld s,
+  let R := shoot fx i0 i1 i2 eL eR maxlength allowmax pL pR old old_ld s in
+  r_acc R = true <-> r_status R = ACC.
+Proof. exact shoot_flag. Qed.
+Print Assumptions C09_accept_iff_ACC_shoot.
+
+Theorem C09_accept_iff_ACC_wire_fencing : forall fx e scL scR old s,
+  let R := wire_fencing fx e scL scR old s in
+  r_acc R = true <-> r_status R = ACC.
+Proof. exact wire_fencing_flag. Qed.
+Print Assumptions C09_accept_iff_ACC_wire_fencing.
+
+Theorem C09_accept_iff_ACC_select_shoot : forall fx e old old_ld s,
+  let R := select_shoot fx e old old_ld s in
+  r_acc R = true <-> r_status R = ACC.
+Proof. exact select_shoot_flag. Qed.
+Print Assumptions C09_accept_iff_ACC_select_shoot.
+
+(* run_md installs the new path (with its weight vector) exactly when the move was accepted *)
+Theorem C09_run_md_replaces_iff_accepted : forall fx e old old_ld s intfs mvs lm1 capg minus,
+  let '(r, kept, w) := run_md fx e old old_ld s intfs mvs lm1 capg minus in
+  r = select_shoot fx e old old_ld s /\
+  (r_acc r = true -> kept = r_path r /\ w = calc_cv_vector (orders (r_path r)) intfs mvs lm1 capg minus) /\
+  (r_acc r = false -> kept = old /\ w = None).
+Proof. exact run_md_keeps. Qed.
+Print Assumptions C09_run_md_replaces_iff_accepted.
+
+(* ------------------------------------------------------------------ rejections change nothing *)
+
+Theorem C09_reject_untouched : forall fx e old old_ld s intfs mvs lm1 capg minus,
+  r_status (select_shoot fx e old old_ld s) <> ACC ->
+  run_md fx e old old_ld s intfs mvs lm1 capg minus = (select_shoot fx e old old_ld s, old, None).
+Proof. exact reject_untouched. Qed.
+Print Assumptions C09_reject_untouched.
+
+(* ------------------------------------------------------------------ shooting points are never end points *)
+
+(* rgen.integers(1, L-1) is driven by a uniform u in [0,1): index 1 + floor(u (L-2)) *)
+Theorem C09_shooting_index_interior : forall u L,
+  0 <= Qnum u -> Qnum u < Zpos (Qden u) -> (3 <= L)%nat ->
+  (1 <= shooting_index u L <= L - 2)%nat.
+Proof. exact shooting_index_interior. Qed.
+Print Assumptions C09_shooting_index_interior.
+
+(* ------------------------------------------------------------------ an accepted shooting path is valid *)
+
+(* (i)-(v): the new path is  xb, reversed backward interior, shooting point o, forward interior, xf *)
+Theorem C09_acc_valid_shoot : forall fx i0 i1 i2 eL eR maxlength allowmax pL pR old old_ld s,
+  let R := shoot fx i0 i1 i2 eL eR maxlength allowmax pL pR old old_ld s in
+  r_status R = ACC ->
+  exists xb mb o mf xf,
+    orders (r_path R) = xb :: rev mb ++ o :: mf ++ [xf] /\
+    (* (i) both ends are outside [i0, i2]; the start is on a side start_cond allows; without "L"
+           in start_cond neither end is on the left *)
+    (xb < i0 \/ i2 < xb) /\ (xf < i0 \/ i2 < xf) /\
+    in_sc pL pR (Some (classify i0 i2 xb)) = true /\
+    (i0 <= i1 <= i2 -> pL = false -> i2 < xb /\ i2 < xf) /\
+    (* (ii) every other frame is inside *)
+    Forall (fun x => i0 <= x <= i2) (rev mb ++ o :: mf) /\ i0 <= o < i2 /\
+    (* (iii) the ensemble's interface is crossed (unless both start sides are allowed) *)
+    (eL && eR = false ->
+       exists x y, In x (orders (r_path R)) /\ In y (orders (r_path R)) /\ x < i1 <= y) /\
+    (* (iv) length limits: maxlength, and the drawn limit int((L-2)/r) + 2 *)
+    (3 <= plen (r_path R) <= maxlength)%nat /\ maxlen (r_path R) = maxlength /\
+    (old_ld || allowmax = false ->
+       exists u rr ds, s_draws s = u :: rr :: ds /\ 0 < Qnum rr /\
+         (Z.of_nat (plen (r_path R)) - 2) * Qnum rr <= (Z.of_nat (plen old) - 2) * Zpos (Qden rr)) /\
+    (* (v) the shooting point: interior index of the old path, index len(back) - 1 of the new one *)
+    g_b (r_gen R) = S (length mb) /\ g_order (r_gen R) = o /\
+    (exists u ds sp, s_draws s = u :: ds /\ g_a (r_gen R) = shooting_index u (plen old) /\
+       (1 <= g_a (r_gen R) < plen old)%nat /\
+       nth_error (pts old) (g_a (r_gen R)) = Some sp /\ o = shot_order s sp) /\
+    torigin (r_path R) = torigin old + Z.of_nat (g_a (r_gen R)) - Z.of_nat (g_b (r_gen R)) /\
+    r_acc R = true /\ r_weight R = 1.
+Proof. exact acc_valid_shoot_orders. Qed.
+Print Assumptions C09_acc_valid_shoot.
+
+(* (v), (vi): time order.  Position p of the new path holds the frame the engine produced |p - jb|
+   steps away from the shooting point: frames of the backward call (velocities reversed) before
+   it, in reverse order of generation, frames of the forward call after it *)
+Theorem C09_acc_shoot_time_ordered : forall fx i0 i1 i2 eL eR maxlength allowmax pL pR old old_ld s,
+  let R := shoot fx i0 i1 i2 eL eR maxlength allowmax pL pR old old_ld s in
+  r_status R = ACC ->
+  exists sb sf rest,
+    s_streams s = sb :: sf :: rest /\
+    let jb := g_b (r_gen R) in
+    let o := g_order (r_gen R) in
+    (jb < plen (r_path R))%nat /\
+    nth_error (pts (r_path R)) jb = Some (eng_frame (s_ncall s) true 0 o) /\
+    (forall p, (p <= jb)%nat ->
+       nth_error (pts (r_path R)) p =
+       option_map (eng_frame (s_ncall s) true (jb - p)) (nth_error (o :: sb) (jb - p))) /\
+    (forall p, (jb < p < plen (r_path R))%nat ->
+       nth_error (pts (r_path R)) p =
+       option_map (eng_frame (S (s_ncall s)) false (p - jb)) (nth_error (o :: sf) (p - jb))) /\
+    (forall p, (p < plen (r_path R))%nat -> nth_error (pts (r_path R)) p <> None).
+Proof. exact acc_valid_shoot_frames. Qed.
+Print Assumptions C09_acc_shoot_time_ordered.
+
+(* (vii) non-zero weight in the own ensemble, through run_md's calc_cv_vector.
+   Plus ensemble k with mc_move "sh": the own entry of the weight vector is 1 *)
+Theorem C09_acc_own_weight_shoot_plus : forall fx e old old_ld s i0' irest mvs lm1 capg k v,
+  e_move e = Msh -> e_scL e && e_scR e = false ->
+  r_status (select_shoot fx e old old_ld s) = ACC ->
+  snd (run_md fx e old old_ld s (i0' :: irest) mvs lm1 capg false) = Some v ->
+  (S k < length (i0' :: irest))%nat -> nth_error (i0' :: irest) k = Some (e_i1 e) ->
+  nth_error mvs (S k) = Some Msh ->
+  nth_error v k = Some 1.
+Proof. exact run_md_weight_sh_plus. Qed.
+Print Assumptions C09_acc_own_weight_shoot_plus.
+
+(* [0-]: the single weight is 1, with lambda_minus_one (= the ensemble's left interface) or
+   without (paths start on the right of interfaces[0] = the ensemble's right interface) *)
+Theorem C09_acc_own_weight_shoot_minus : forall fx e old old_ld s intfs mvs lm1 capg l,
+  e_move e = Msh ->
+  r_status (select_shoot fx e old old_ld s) = ACC ->
+  (lm1 = Some l \/ (lm1 = None /\ hd_error intfs = Some l)) ->
+  (l <= e_i0 e \/ (l <= e_i2 e /\ e_scL e = false /\ e_i0 e <= e_i1 e <= e_i2 e)) ->
+  snd (run_md fx e old old_ld s intfs mvs lm1 capg true) = Some [1].
+Proof. exact run_md_weight_sh_minus. Qed.
+Print Assumptions C09_acc_own_weight_shoot_minus.
+
+(* ------------------------------------------------------------------ the acceptance rule *)
+
+(* A trial whose backward and forward trajectories reach the interfaces (after jb and jf steps),
+   whose full path fits maxlength and would be valid for the ensemble, is accepted exactly when
+   the drawn number r is at most n_old / n_new (interior points).  Current code (fx = true). *)
+Theorem C09_accept_rule : forall i0 i1 i2 eL eR maxlength pL pR old s u rr ds sp sb sf rest jb jf,
+  s_draws s = u :: rr :: ds -> 0 < Qnum rr ->
+  (3 <= plen old)%nat ->
+  nth_error (pts old) (shooting_index u (plen old)) = Some sp ->
+  i0 <= shot_order s sp < i2 ->
+  s_streams s = sb :: sf :: rest ->
+  first_out i0 i2 (shot_order s sp :: sb) = Some jb -> first_out i0 i2 (shot_order s sp :: sf) = Some jf ->
+  (jb + jf + 1 <= maxlength)%nat ->
+  trial_valid i0 i1 i2 eL eR pL pR (trial_orders (shot_order s sp) sb sf jb jf) ->
+  (r_status (shoot true i0 i1 i2 eL eR maxlength false pL pR old false s) = ACC <->
+   (rr <= (Z.of_nat (plen old) - 2) # Z.to_pos (Z.of_nat (jb + jf + 1) - 2))%Q).
+Proof. exact shoot_accept_rule. Qed.
+Print Assumptions C09_accept_rule.
+
+(* The rule before the repair demanded one frame more: r <= n_old / (n_new + 1) (guarded form) *)
+Theorem C09_accept_rule_before_repair : forall i0 i1 i2 eL eR maxlength pL pR old s u rr ds sp sb sf rest jb jf,
+  s_draws s = u :: rr :: ds -> 0 < Qnum rr ->
+  (3 <= plen old)%nat ->
+  nth_error (pts old) (shooting_index u (plen old)) = Some sp ->
+  i0 <= shot_order s sp < i2 ->
+  s_streams s = sb :: sf :: rest ->
+  first_out i0 i2 (shot_order s sp :: sb) = Some jb -> first_out i0 i2 (shot_order s sp :: sf) = Some jf ->
+  (jb + jf + 2 <= maxlength)%nat ->
+  trial_valid i0 i1 i2 eL eR pL pR (trial_orders (shot_order s sp) sb sf jb jf) ->
+  (r_status (shoot false i0 i1 i2 eL eR maxlength false pL pR old false s) = ACC <->
+   (rr <= (Z.of_nat (plen old) - 2) # Z.to_pos (Z.of_nat (jb + jf + 1) - 1))%Q).
+Proof. exact shoot_accept_rule_old. Qed.
+Print Assumptions C09_accept_rule_before_repair.
+
+(* ... so the full statement fails for it: old path of 7 frames, r = 1/2, trial path of 12
+   frames, 1/2 <= 5/10, rejected FTL by the old rule and accepted by the current one (lead L11) *)
+Theorem C09_accept_rule_before_repair_refuted :
+  exists i0 i1 i2 eL eR maxlength pL pR old s u rr ds sp sb sf rest jb jf,
+    s_draws s = u :: rr :: ds /\ 0 < Qnum rr /\ (3 <= plen old)%nat /\
+    nth_error (pts old) (shooting_index u (plen old)) = Some sp /\
+    i0 <= shot_order s sp < i2 /\ s_streams s = sb :: sf :: rest /\
+    first_out i0 i2 (shot_order s sp :: sb) = Some jb /\ first_out i0 i2 (shot_order s sp :: sf) = Some jf /\
+    (jb + jf + 1 <= maxlength)%nat /\
+    trial_valid i0 i1 i2 eL eR pL pR (trial_orders (shot_order s sp) sb sf jb jf) /\
+    (rr <= (Z.of_nat (plen old) - 2) # Z.to_pos (Z.of_nat (jb + jf + 1) - 2))%Q /\
+    r_status (shoot false i0 i1 i2 eL eR maxlength false pL pR old false s) = FTL /\
+    r_status (shoot true i0 i1 i2 eL eR maxlength false pL pR old false s) = ACC.
+Proof. exact accept_rule_old_refuted. Qed.
+Print Assumptions C09_accept_rule_before_repair_refuted.
+
+(* the old rule of MovesM is literally the rule of EngineM (kept for C12's engine model) *)
+Theorem C09_rule_before_repair_is_EngineM : forall p f l r, add_to_path_g false p f l r = add_to_path p f l r.
 Proof. exact add_to_path_g_false. Qed.
-Print Assumptions C09_current_rule_is_EngineM.
+Print Assumptions C09_rule_before_repair_is_EngineM.
+
+(* ------------------------------------------------------------------ an accepted wire-fencing path is valid *)
+
+Theorem C09_acc_valid_wire_fencing : forall fx e scL scR old s,
+  let R := wire_fencing fx e scL scR old s in
+  r_status R = ACC ->
+  let os := orders (r_path R) in
+  let i0 := e_i0 e in let i1 := e_i1 e in let i2 := e_i2 e in let cap := cap_of e in
+  (* (iv) shorter than maxlength *)
+  (plen (r_path R) < e_maxlength e)%nat /\
+  (* (i) it starts on the side named by the (single letter) start condition *)
+  (exists first, hd_error os = Some first /\ sc_is scL scR (classify i0 i2 first) = true) /\
+  (* (i), (ii) neither end could be extended (it is not in [i0, i2)), everything in between is inside *)
+  (i0 <= i1 -> cap <= i2 ->
+     exists f mid l, os = f :: mid ++ [l] /\ (f < i0 \/ i2 <= f) /\ (l < i0 \/ i2 <= l) /\
+                     Forall (fun x => i0 <= x <= i2) mid) /\
+  (* (iii) it crosses the ensemble's interface *)
+  (e_scL e && e_scR e = false -> exists x y, In x os /\ In y os /\ x < i1 <= y) /\
+  (* (vii) its wire-fencing weight is positive, provided no frame lies exactly on the cap *)
+  (e_scL e && e_scR e = false -> (forall o, In o os -> o <> cap) -> (0 < wf_nframes i1 cap os)%nat) /\
+  r_acc R = true.
+Proof. exact acc_valid_wf. Qed.
+Print Assumptions C09_acc_valid_wire_fencing.
+
+(* (vii) through run_md: the own entry of the weight vector of a "wf" ensemble is positive *)
+Theorem C09_acc_own_weight_wire_fencing : forall fx e old old_ld s i0' irest mvs lm1 capg k v,
+  e_move e = Mwf -> e_scL e && e_scR e = false ->
+  r_status (select_shoot fx e old old_ld s) = ACC ->
+  snd (run_md fx e old old_ld s (i0' :: irest) mvs lm1 capg false) = Some v ->
+  (S k < length (i0' :: irest))%nat -> nth_error (i0' :: irest) k = Some (e_i1 e) ->
+  nth_error mvs (S k) = Some Mwf ->
+  match capg with Some c => c | None => last (i0' :: irest) i0' end = cap_of e ->
+  (forall o, In o (orders (r_path (select_shoot fx e old old_ld s))) -> o <> cap_of e) ->
+  exists b, nth_error v k = Some b /\ 0 < b.
+Proof. exact run_md_weight_wf_plus. Qed.
+Print Assumptions C09_acc_own_weight_wire_fencing.
+
+(* The guard is needed (recorded finding): the sub-moves treat a frame exactly on the cap as
+   inside (stop rule o > cap) while the weight scan treats it as outside (o >= cap); a segment
+   that jumps from below lambda_i onto the cap is accepted with weight 0.
+   Witness: interfaces (1, 2, 5), cap 3, accepted path 0 1 3 2 4 6. *)
+Theorem C09_wire_fencing_weight_on_cap_refuted :
+  exists e scL scR old s,
+    let R := wire_fencing true e scL scR old s in
+    r_status R = ACC /\ e_scL e && e_scR e = false /\ e_i0 e <= e_i1 e /\ cap_of e <= e_i2 e /\
+    In (cap_of e) (orders (r_path R)) /\
+    wf_nframes (e_i1 e) (cap_of e) (orders (r_path R)) = 0%nat.
+Proof. exact wf_zero_weight_refuted. Qed.
+Print Assumptions C09_wire_fencing_weight_on_cap_refuted.
+
+(* ------------------------------------------------------------------ examples: the hypotheses are satisfiable *)
+
+(* a concrete accepted shooting move (the L11 input under the current rule): old path
+   0 2 2 2 2 2 0 in the ensemble (1, 3, 4), r = 1/2, backward one step to 0, forward ten steps *)
+Example C09_example_accepted_shoot :
+  let R := shoot true 1 3 4 true false 100 false true false l11_old false l11_src in
+  r_status R = ACC /\ r_acc R = true /\
+  orders (r_path R) = [0; 2; 2; 2; 2; 2; 2; 2; 2; 2; 2; 5] /\ g_a (r_gen R) = 1%nat /\ g_b (r_gen R) = 1%nat.
+Proof. vm_compute. repeat split; reflexivity. Qed.
+
+(* the hypotheses of C09_accept_rule hold for it, and the rule gives ACC from 1/2 <= 5/10 *)
+Example C09_example_accept_rule :
+  r_status (shoot true 1 3 4 true false 100 false true false l11_old false l11_src) = ACC.
+Proof.
+  apply (proj2 (C09_accept_rule 1 3 4 true false 100%nat true false l11_old l11_src (0#1)%Q (1#2)%Q []
+                 (mkF 2 1 false 0%nat) [0] [2;2;2;2;2;2;2;2;2;5] [] 1%nat 10%nat
+                 eq_refl eq_refl ltac:(vm_compute; lia) eq_refl ltac:(vm_compute; split; [discriminate|reflexivity])
+                 eq_refl eq_refl eq_refl ltac:(vm_compute; lia)
+                 (conj (ex_intro _ 0 (conj eq_refl eq_refl)) eq_refl))).
+  vm_compute. discriminate.
+Qed.
+
+(* a concrete accepted wire-fencing move with positive weight: interfaces (1, 2, 5), cap 4, old path
+   0 2 0; one jump from the frame 2: backward 3, 1; forward 5; then extended backward from 1 to 0 *)
+Example C09_example_accepted_wire_fencing :
+  let e := mkE 1 2 5 true false Mwf 20 false (Some 4) 1 in
+  let R := wire_fencing true e true false zw_old (mkS [0#1; 0#1]%Q [] [[3; 1]; [5]; [0]] 0%nat) in
+  r_status R = ACC /\ orders (r_path R) = [0; 1; 3; 2; 5] /\
+  wf_nframes 2 4 (orders (r_path R)) = 2%nat.
+Proof. vm_compute. repeat split; reflexivity. Qed.
